@@ -105,7 +105,7 @@ def check(case: Dict[str, Any]) -> CaseInfo:
 def c02_case(draw):
     parse_only = draw(st.sampled_from([True, False]))
     big = draw(st.sampled_from([False, False, False, True]))
-    o = Opts(fractional_stamps=True, early_kernels=True, steps=[0, 1, 2, 3], w_sync=3, max_top=4, event_sync=True, cuda_events=True,
+    o = Opts(fractional_stamps=True, unrounded=True, early_kernels=True, steps=[0, 1, 2, 3], w_sync=3, max_top=4, event_sync=True, cuda_events=True,
              pad_entries=draw(st.sampled_from([130, 140, 200])) if big else 0, corr_base=draw(st.sampled_from([0, 1, 20])) if big else None)
     case = draw(sim_case(o, max_ranks=3))
     case["big"] = big
